@@ -3,6 +3,7 @@ CONSTANTS
   Pats = {"name:b.lua", "name:v.lua", "dir:vendor", "dir:deep", "ext:luau", "ext:lua", "anch:a.lua", "anch:b.lua", "!name:v.lua", "!name:b.lua", "!ext:lua"}
   ArgSets = {"dot", "src", "vendor", "a", "v", "w", "notes", "hidden", "dot+a", "a+a", "src+b", "src+vendor", "src+notes", "notes+src", "dot+notes", "notes+dot", "lib+src"}
   MaxPats = 2
+  IgNames = {"stylua", "ignore"}
   GlobSets = {"none", "lua", "luau", "txt", "lua-b", "-b+lua", "-vendor", "lua-vendor", "under-src"}
   FlagSets = {"none", "respect", "hidden", "both"}
 INVARIANT Emit
